@@ -104,6 +104,21 @@ UNITS = [
              twins=[("never-an-error", "result[1] is None")], replay="native.c16:replay_parse"),
 ]
 
+# The "faithful" half of C16 (the rendering is a valid Python regex with the same language and parses back to the
+# same tree) relates the parser to the renderer (a Transformer over the tree) and to the semantics of Python's
+# ``re``: no contract within pyvc's reach states language equality with ``re``.  Bounded stand-in on the real code.
+from pyvc.units import Native  # noqa: E402
+
+UNITS.append(Native(
+    "render(parse(p)): valid Python regex, same language, same tree again", ["C16"], "native.c16:faithful",
+    kind="bounded",
+    bound="every pattern of <= 1 term, and of one term followed by one atom, from 41 atoms (literals, escapes, sets "
+          "with carets / dashes / brackets, groups, separators) x 16 quantifiers (greedy, non-greedy, counted, "
+          "counted with blanks, malformed) + anchored variants + 44 near-misses (~28 000 patterns); language compared "
+          "with re.fullmatch on every string over 'abc^-]}{ .\\\\' of length <= 2 (thorough: 3); exhaustive within "
+          "the bound",
+    args={"max_terms": 2, "max_len": 2}, thorough_args={"max_terms": 2, "max_len": 3}, timeout_s=3000))
+
 # _parse_concatenation: the loop body is verified in a case split over what the cursor points at when an
 # iteration starts (the cases are exhaustive: the last one is the negation of all others).  Each case is
 # one unit so that the cases run in parallel; only the last case also follows the loop's exit path.
